@@ -5,7 +5,7 @@ from storefam import gen_many, run_templates, replay_store
 from httpfam import run_http_templates
 
 AUDIT = "Audit/C08.lean"
-MODULE = "Xandikos.Theorems.C08"
+MODULE = "Xandikos.Theorems.C08Http"
 PREFIXES = ('C08:',)
 PROFILE = 'mixed'
 
